@@ -174,11 +174,11 @@ CLAIMED["C14"] = dict(
          "changes no other element; C14_call_by_value - the caller keeps the environment the argument evaluation left; "
          "C14_if_taken_branch / C14_loop_order - an if runs the branch taken, a loop its body once per element in order. "
          "About the model of the compiler (Model/BitSem.lean, core fragment: scalars, if, match on scalars, && / ||, blocks, let, let mut, "
-         "assignment to a variable): C14_compiled_scope / C14_compiled_stmts_scope - compiled code keeps the scope stack (same "
+         "assignment to a variable, calls on scalars): C14_compiled_scope / C14_compiled_stmts_scope - compiled code keeps the scope stack (same "
          "names, types, order), so the environments merged after an if or a match line up; C14_merge - the variable-by-variable merge "
          "(mux_envs) of two such environments is the environment of the branch taken; C14_compiled_state - after any statements "
          "of the fragment the wires of EVERY variable in scope encode the value the source semantics give it. PARTIAL: outside "
-         "that fragment (aggregates, accessors, match on aggregates, loops, calls) the merging is tied to the semantics by the "
+         "that fragment (aggregates, accessors, match on aggregates, loops) the merging is tied to the semantics by the "
          "correspondence: generated statement-heavy programs that return ALL visible variables, compiled by /repo in 4 "
          "circuit configurations and compared bit for bit with the Lean semantics.",
     design_ref="DESIGN.md §6 C14",
@@ -277,7 +277,8 @@ CLAIMED["C01"] = dict(
          "&& and ||, "
          "`as` between all these types, if/else as expression and as statement, match on a Boolean or integer with literal, range "
          "and binding patterns (arms covering the type: last arm a binding or `_`, or exhaustive by the verified reference procedure of C08), blocks, (), let, let mut, assignment to a "
-         "variable (also inside branches, match arms and short-circuit operands) - and for every program body, environment of well-typed "
+         "variable (also inside branches, match arms and short-circuit operands), calls of functions with scalar parameters "
+         "(inlined to any depth, programs without constants) - and for every program body, environment of well-typed "
          "values and fuel: if the source semantics (Model/SrcSem.lean) return a value, the bit-level evaluation Bit.bitStmts - "
          "which follows compile.rs construct by construct (both branches and all arms compiled, value, panic record and every variable "
          "merged afterwards; arm selection `!has_prev_match && is_match`, range patterns by comparators) and uses the bit-list operators of Model/Arith.lean - returns exactly the encoding of that value, "
@@ -286,7 +287,7 @@ CLAIMED["C01"] = dict(
          "proof rests on the all-width correctness of the adder, subtractor, comparator, equality, negation and cast circuits "
          "(Proofs/Arith*.lean, BitOps*.lean) and of the multiplier, divider, shifter and the repeated addition used for "
          "positive literal factors. PARTIAL: the fragment excludes multiplication by a "
-         "negative literal (where the recorded C03 finding lives), aggregates, match on aggregates and enums, loops, calls and assignment through "
+         "negative literal (where the recorded C03 finding lives), aggregates, match on aggregates and enums, loops, functions on aggregates, constants and assignment through "
          "accessors; for those, and for the step from Bit.bitStmts to "
          "real gates, the property is explored: generated programs (the generator builds the syntax tree itself) are compiled "
          "as SSA and register circuit with and without de-duplication and compared with the Lean source semantics on 6 "
